@@ -687,12 +687,15 @@ def _parse_source_for_lambda(
     func_name = None
     start_token = None
     source, lambda_line = _get_sourcelines(ast_source)
+    is_lambda = getattr(ast_source, "__name__", None) == "<lambda>"
     t_stream = None
     while func_name is None:
         # Setup the tokenizer
         t_stream = _token_runner(source, lambda_line)
 
-        func_name, start_token = t_stream.find_identifier(["def", "lambda"])
+        # Only a `def` can start a named function, and only a `lambda` a lambda: a lambda
+        # written inside a one-line `def` (or in a decorator) is not the function itself.
+        func_name, start_token = t_stream.find_identifier(["lambda"] if is_lambda else ["def"])
 
         if start_token is None:
             return None
